@@ -21,10 +21,10 @@ ALL_ATOMS = V.ATOMS + V.ERR_ATOMS
 def transactions():
     txns = []
     for m in V.MERCHANTS:
-        for d, a in m['pays']:
+        for pi, (d, a) in enumerate(m['pays']):
             txns.append({'date': datetime.datetime(d.year, d.month, d.day), 'description': m['name'], 'raw_description': m['name'].upper(),
                          'amount': a, 'merchant': m['name'], 'category': m['cat'], 'subcategory': m['sub'], 'source': 'Card',
-                         'tags': list(m['tags'])})
+                         'tags': list(m['paytags'][pi]) if 'paytags' in m else list(m['tags'])})
     return txns
 
 
